@@ -134,58 +134,31 @@ def rule_1(ctx):
 
 
 def rule_2(ctx):
-    am = ctx.mod('ast_nodes')
+    """Range materialisation is total: a range-consuming function sees every cell of the rectangle however many empty cells lie
+    between the populated ones - decided on witness workbooks with one populated cell behind a long run of empty cells, along a
+    row and down a column, compiled and evaluated as written."""
+    from . import workbook as W
+    from . import scenarios as S
     ev = ctx.func('ast_nodes', 'RangeNode.eval')
-    loops = [n for n in walk_local(ev) if isinstance(n, ast.For)]
-    cell_loops = [lp for lp in loops if any(isinstance(c, ast.Call) and isinstance(c.func, ast.Attribute)
-                                            and c.func.attr == 'eval_cell' for c in ast.walk(lp))]
-    if not cell_loops:
-        raise AnchorMissing('RangeNode.eval: loop over range cells')
-    outer = min(cell_loops, key=flow.pos)
-    deps = flow.Deps(ev)
-    # names that carry cell values: results of eval_cell and what depends on them
-    val_names = set()
-    for n in walk_local(ev):
-        if isinstance(n, ast.Assign) and isinstance(n.value, ast.Call) and isinstance(n.value.func, ast.Attribute) \
-                and n.value.func.attr == 'eval_cell':
-            val_names |= {t.id for t in n.targets if isinstance(t, ast.Name)}
-    n_exits = 0
-    for n in ast.walk(outer):
-        if isinstance(n, (ast.Break, ast.Continue, ast.Return)):
-            conds = flow.path_conditions(n)
-            ctl = set()
-            for c in conds:
-                if flow.contains(outer, c.origin) or c.origin is outer:
-                    ctl |= deps.closure(names_in(c.test))
-            depends = bool(ctl & val_names)
-            n_exits += 1
-            guard = next((ast.unparse(c.test) for c in conds if c.kind == 'if'), '?')
-            depth = sum(1 for L in flow._enclosing_loops(n, ev) if flow.contains(outer, L) or L is outer)
-            where = {1: 'row loop', 2: 'cell loop'}.get(depth, f'loop depth {depth}')
-            ctx.expect(not depends, n, f'{type(n).__name__.lower()} out of the {where} depends on cell values',
-                       f'range materialisation stops early depending on cell values (`{guard}`): cells after a '
-                       f'run of blanks are dropped (=SUM(A1:DZ1) with only DY1 set gives 0)')
-    # every member address is evaluated and kept
-    inner = [lp for lp in cell_loops if lp is not outer]
-    appended = any(isinstance(c, ast.Call) and isinstance(c.func, ast.Attribute) and c.func.attr == 'append'
-                   for c in ast.walk(outer))
-    ctx.expect(appended and bool(inner), outer, 'every member cell is evaluated and collected',
-               'the nested row/column loops no longer evaluate and collect each member address')
-    # the loop domain is the registered rectangle
-    def _origin_attrs(e, depth=0):
-        attrs = {x.attr for x in ast.walk(e) if isinstance(x, ast.Attribute)}
-        if depth < 3:
-            for nm in names_in(e):
-                for a in walk_local(ev):
-                    if isinstance(a, ast.Assign) and any(isinstance(t, ast.Name) and t.id == nm for t in a.targets):
-                        attrs |= _origin_attrs(a.value, depth + 1)
-        return attrs
-    oa = _origin_attrs(outer.iter)
-    if 'cells' not in oa and 'ranges' not in oa:
-        raise Unmodelled('RangeNode.eval: origin of the materialisation loop domain not recognised')
-    ctx.expect('cells' in oa, outer,
-               'loop domain is XLRange.cells', 'the materialisation loop does not iterate the registered cell matrix')
-    ctx.floor(3, 'exits + totality facts')
+    # along a row: A1:EZ1 (156 columns), only EY1 populated; down a column: A1:A156, only A155 populated
+    for construct, cells, formula_addr, want in (
+            ('break out of the cell loop depends on cell values', {'A1': 1, 'EY1': 40, 'A2': '=SUM(A1:EZ1)', 'A3': '=COUNT(A1:EZ1)'}, ('A2', 'A3'), (41, 2)),
+            ('break out of the row loop depends on cell values', {'A1': 1, 'A155': 40, 'B1': '=SUM(A1:A156)', 'B2': '=COUNT(A1:A156)'}, ('B1', 'B2'), (41, 2))):
+        wb = W.Workbook(ctx, cells)
+        got = tuple(wb.value('Sheet1!' + a) for a in formula_addr)
+        ok = all(S.same(g, w) for g, w in zip(got, want))
+        ctx.expect(ok, ev, construct,
+                   f'range materialisation stops early depending on cell values: {[cells[a] for a in formula_addr]} over one populated cell '
+                   f'behind a run of empty cells evaluate to {got!r}, expected {want!r}: cells after a run of blanks are dropped '
+                   '(=SUM(A1:DZ1) with only DY1 set gives 0)')
+    # a dense rectangle: every member exactly once, row-major
+    dense = {'A1': 1, 'B1': 2, 'C1': 4, 'A2': 8, 'B2': 16, 'C2': 32, 'E1': '=SUM(A1:C2)', 'E2': '=COUNT(A1:C2)', 'E3': '=SUM(A1:C2,A1:C2)', 'E4': '=MAX(B1:C2)-MIN(A1:B2)'}
+    wb = W.Workbook(ctx, dense)
+    for a, w in (('E1', 63), ('E2', 6), ('E3', 126), ('E4', 31)):
+        got = wb.value('Sheet1!' + a)
+        ctx.expect(S.same(got, w), ev, f'every member cell is evaluated and collected: {dense[a]}',
+                   f'{dense[a]} over A1:C2 = 1, 2, 4 / 8, 16, 32 evaluates to {got!r}, expected {w}')
+    ctx.floor(6, 'sparse + dense rectangles')
 
 
 def rule_3(ctx):
